@@ -86,11 +86,11 @@ def unit():
     open spec fn kstep(&self) -> KStep { belt_ks(self.cipher_backend.enc_fn()) }
 ''', rest_props=P, fns={
             'gen_ks_block': FnC(props=P, inherits=True, ensures=[
-                ('state', P + ('C11',), '*final(self).s as int == (*old(self).s as int + 1) % two128()'),
+                ('state', P + ('C09', 'C10', 'C11'), '*final(self).s as int == (*old(self).s as int + 1) % two128()'),
                 ('out', P, 'final(block)@ == old(self).cipher_backend.enc_fn()(le_bytes((*old(self).s as int + 1) % two128(), 16))'),
             ] + FRAME, stmts={'0': 'proof { mod_add_wrap(*self.s as int, 1, two128()); }'}),
             'gen_par_ks_blocks': FnC(props=P, inherits=True, attrs=['#[verifier::loop_isolation(false)]'], ensures=[
-                ('state', P + ('C11',), '*final(self).s as int == (*old(self).s as int + B::ParBlocksSize::USIZE) % two128()'),
+                ('state', P + ('C09', 'C10', 'C11'), '*final(self).s as int == (*old(self).s as int + B::ParBlocksSize::USIZE) % two128()'),
                 ('out', P, '''forall |j: int| 0 <= j < B::ParBlocksSize::USIZE ==>
                 (#[trigger] final(blocks)@[j])@ == old(self).cipher_backend.enc_fn()(le_bytes((*old(self).s as int + j + 1) % two128(), 16))'''),
             ] + FRAME, iters={0: 'it'}, stmts={'0': '''
